@@ -174,8 +174,21 @@ def retention(chk, repo, rule="C10.retention"):
                 cl = PC.pc(st)
                 vtxt = norm.raw(val) if val is not None else ""
                 reasons = []
-                # (a) the stored value was length-checked before
-                if val is not None and any((not l.pos) and _len_gt(l, vtxt) for l in PC.units(cl)):
+                # (a) the stored value was length-checked before - directly, or through a local that starts as len(<value>) and is only
+                # ever decreased (`line_len = len(line); line_len -= line.endswith(b"\r")`): an upper bound of the stored length while the
+                # value itself only shrinks (rstrip)
+                def _bound_local(l):
+                    try:
+                        e = ast.parse(l.text, mode="eval").body
+                    except SyntaxError:
+                        return False
+                    if not (isinstance(e, ast.Compare) and isinstance(e.ops[0], ast.Gt) and isinstance(e.left, ast.Name)):
+                        return False
+                    ds = norm.fn_defs(fn.node).defs.get(e.left.id, [])
+                    first = [v for d, v in ds if isinstance(d, ast.Assign) and v is not None]
+                    rest = [d for d, v in ds if not isinstance(d, ast.Assign)]
+                    return bool(first) and all(norm.raw(v) == f"len({vtxt})" for v in first) and all(isinstance(d, ast.AugAssign) and isinstance(d.op, ast.Sub) for d in rest)
+                if val is not None and any((not l.pos) and (_len_gt(l, vtxt) or _bound_local(l)) for l in PC.units(cl)):
                     reasons.append(f"`{vtxt}` passed its length limit before being stored")
                 if val is not None and any(l.pos and M.match_text("len($C) < len($S)", l.text) is not None for l in PC.units(cl)):
                     reasons.append("at most a partial line terminator is stored")
